@@ -720,9 +720,11 @@ def r4_ancillary_seeding(ctx):
             from_anc = True
         conds = conditions_at(c, stop=loop)
         member = [a for a in conds if a.pol and a.text == f"{key} in params"]
+        vdef = norm(val_def)
         nan = [a for a in conds if (not a.pol) and a.text in (
             f"np.isnan({vtxt})", f"numpy.isnan({vtxt})",
-            f"math.isnan({vtxt})")]
+            f"math.isnan({vtxt})", f"np.isnan({vdef})",
+            f"numpy.isnan({vdef})", f"math.isnan({vdef})")]
         extra = [a for a in conds if a not in member and a not in nan]
         ctx.check(bool(member), c, f"{norm(c)} guarded by membership",
                   f"ancillary '{key}' seeds a parameter without testing "
